@@ -4,7 +4,8 @@ from .C20 import m_is_inside_any, _validate as _validate_inside
 
 ID = "C01"
 CM = "breezy.commit"
-FUNCTIONS = [CM + ":filter_excluded", CM + ":Commit._filter_iter_changes"]
+FUNCTIONS = [CM + ":filter_excluded", CM + ":Commit._filter_iter_changes", CM + ":Commit.commit",
+             CM + ":Commit._update_builder_with_changes", CM + ":Commit._check_pointless", CM + ":Commit._update_branches"]
 STUBS = ["osutils.is_inside_any (Rust) -> the component-wise python model of C20, compared with the compiled function on "
          "all pairs of short strings before each run", "tree changes are the real breezy.tree.TreeChange records built by "
          "the harness; reporter and working tree are recording stubs"]
@@ -12,8 +13,10 @@ ASSUMPTIONS = ["paths are '/'-separated relative paths over a small alphabet",
                "reference: an excluded path (or anything inside it) contributes no change, old or new side; every other "
                "change is passed on unchanged and in order; a versioned entry whose file is missing is committed as a "
                "deletion; changes between two unversioned states are not committed"]
-OUTSIDE = ["iter_changes itself (dirstate / inventory comparison, compiled), the commit builder and the recording of the "
-           "changes, nested trees", "more changes / exclusions than the bound"]
+OUTSIDE = ["iter_changes itself (dirstate / inventory comparison, compiled), the commit builder's recording of the changes "
+           "(inventory delta, texts), nested trees, bound branches in the pipeline obligation (C23)",
+           "failures after builder.commit has stored the revision (branch / working tree update failing: the code has no "
+           "rollback for them)", "more changes / exclusions than the bound"]
 
 ALPHA = "a./"          # '.' sorts just below '/': names such as 'a.' fall between the directory 'a' and its children 'a/...'
 
@@ -158,6 +161,265 @@ def ob_filter_changes(cx):
     cx.observe("n", len(got))
 
 
+class _Boom(Exception):
+    pass
+
+
+PENDING = ["a", "a/b", "c"]                   # files with pending changes in the working tree
+
+
+def ob_pipeline(cx):
+    """The real Commit.commit() from its first line to its return over recording stand-ins for tree, branch and commit
+    builder.  Symbolic: the form of the selection (None / empty / lists), of the exclusion, pending merge or not, pointless
+    commits allowed or not, and the STEP AT WHICH AN EXCEPTION IS RAISED (a symbolic index over the calls the method makes
+    up to and including builder.commit).  The builder must be handed exactly the selected, not excluded changes; after
+    success the steps have run in the documented order; after a failure the write group is aborted and the tip untouched."""
+    import contextlib
+    C = cx.mod(CM)
+    T = cx.truth
+    TC = cx.real("breezy.tree").TreeChange
+    sel = cx.pick("selection", [None, [], ["a"], ["a/b"], ["a", "a/b"], ["c", "a"]])
+    exc = cx.pick("exclude", [None, [], ["a/b"], ["a"]])
+    nparents = cx.choose("nparents", 1, 2)
+    allow_pointless = bool(cx.choose("allow_pointless", 0, 1))
+    fault = cx.int("fault_at_step", 0, 40)        # 0: no failure
+    log = []
+    state = {"step": 0, "tip": (3, b"old-tip"), "locks": 0, "basis": b"old-tip", "fault_done": False}
+
+    def step(name):
+        state["step"] += 1
+        if not state["fault_done"] and not state.get("committed") and T(fault == state["step"]):
+            state["fault_done"] = True
+            log.append(("FAULT", name))
+            raise _Boom(name)
+        log.append((name,))
+
+    def inside(p, d):
+        return p == d or p.startswith(d + "/")
+
+    class Lock:
+        def __init__(self, what):
+            self.what = what
+
+        def __enter__(self):
+            state["locks"] += 1
+            return self
+
+        def __exit__(self, *a):
+            state["locks"] -= 1
+            return False
+
+    class Builder:
+        updates_branch = False
+
+        def __init__(self):
+            self.recorded = None
+            self.aborted = 0
+
+        def record_iter_changes(self, tree, basis_revid, changes):
+            step("builder.record_iter_changes")
+            self.recorded = [c.path[1] for c in changes]
+            return iter(())
+
+        def any_changes(self):
+            return bool(self.recorded)
+
+        def finish_inventory(self):
+            step("builder.finish_inventory")
+
+        def commit(self, message):
+            step("builder.commit")
+            state["committed"] = True
+            log.append(("revision_stored", message))
+            return b"new-rev"
+
+        def abort(self):
+            self.aborted += 1
+            log.append(("builder.abort",))
+
+        def get_basis_delta(self):
+            return ["delta"]
+    builders = []
+
+    class Repo:
+        supports_rich_root = staticmethod(lambda: True)
+        has_revision = staticmethod(lambda r: True)
+
+        class _format:
+            rich_root_data = True
+
+    class Fmt:
+        stores_revno = staticmethod(lambda: True)
+
+    class Branch:
+        repository = Repo
+        _format = Fmt
+        base = "branch/"
+
+        @staticmethod
+        def get_bound_location():
+            return None
+
+        @staticmethod
+        def get_master_branch(possible_transports=None):
+            return None
+
+        @staticmethod
+        def last_revision_info():
+            return state["tip"]
+
+        @staticmethod
+        def last_revision():
+            return state["tip"][1]
+
+        @staticmethod
+        def get_commit_builder(parents, config_stack, timestamp, timezone, committer, revprops, rev_id, lossy=False):
+            step("branch.get_commit_builder")
+            b = Builder()
+            builders.append(b)
+            return b
+
+        @staticmethod
+        def set_last_revision_info(revno, revid):
+            step("branch.set_last_revision_info")
+            state["tip"] = (revno, revid)
+
+    class Basis:
+        @staticmethod
+        def lock_read():
+            return Lock("basis")
+
+    class Tree:
+        branch = Branch
+
+        @staticmethod
+        def lock_write():
+            step("tree.lock_write")
+            return Lock("tree")
+
+        @staticmethod
+        def get_parent_ids():
+            return [b"old-tip"] if nparents == 1 else [b"old-tip", b"merged"]
+
+        @staticmethod
+        def last_revision():
+            return b"old-tip"
+
+        @staticmethod
+        def basis_tree():
+            step("tree.basis_tree")
+            return Basis
+
+        @staticmethod
+        def conflicts():
+            return []
+
+        @staticmethod
+        def supports_symlinks():
+            return True
+
+        @staticmethod
+        def iter_changes(basis, specific_files=None):
+            step("tree.iter_changes")
+            log.append(("selection", None if specific_files is None else list(specific_files)))
+            out = []
+            for p in PENDING:
+                if specific_files is None or any(inside(p, s) for s in specific_files):
+                    out.append(TC((p, p), True, (True, True), (p, p), ("file", "file"), (False, False)))
+            return iter(out)
+
+        @staticmethod
+        def _observed_sha1(path, h):
+            pass
+
+        @staticmethod
+        def unversion(paths):
+            step("tree.unversion")
+
+        @staticmethod
+        def update_basis_by_delta(revid, delta):
+            step("tree.update_basis_by_delta")
+            state["basis"] = revid
+
+    class Reporter:
+        def is_verbose(self):
+            return False
+
+        def __getattr__(self, name):
+            return lambda *a, **k: log.append(("reporter." + name,))
+
+    class Config:
+        @staticmethod
+        def get(name):
+            return None if name == "post_commit" else False
+
+    class PB:
+        def finished(self):
+            pass
+
+        def update(self, *a, **k):
+            pass
+
+    class UI:
+        class ui_factory:
+            nested_progress_bar = staticmethod(lambda: PB())
+    C.ui = UI
+    cm = C.Commit(reporter=Reporter(), config_stack=Config)
+    outcome = "ok"
+    try:
+        got_rev = cm.commit(message="msg", specific_files=sel, exclude=exc, allow_pointless=allow_pointless,
+                            working_tree=Tree)
+    except _Boom:
+        outcome = "fault"
+    except C.PointlessCommit:
+        outcome = "pointless"
+    except C.CannotCommitSelectedFileMerge:
+        outcome = "selected_merge"
+    names = [e[0] for e in log]
+    cx.require(state["locks"] == 0, "commit() returned with %d lock(s) still held" % state["locks"])
+    # ---- reference
+    if nparents > 1 and (sel is not None or exc):
+        want = "selected_merge"
+    else:
+        expected = [p for p in PENDING if (sel is None or any(inside(p, s) for s in sel))
+                    and not any(inside(p, e) for e in (exc or []))]
+        want = "pointless" if (not expected and not allow_pointless and nparents == 1) else "ok"
+    if state["fault_done"]:
+        want = "fault"
+    cx.require(outcome == want, "commit ended with %s, expected %s" % (outcome, want))
+    if want != "ok":
+        cx.require(state["tip"] == (3, b"old-tip") and state["basis"] == b"old-tip",
+                   "a commit that raised moved the branch tip / the tree's basis")
+        cx.require("revision_stored" not in names, "a commit that raised stored its revision")
+        for b in builders:
+            cx.require(b.aborted == 1, "the write group of a commit that raised was aborted %d times" % b.aborted)
+        cx.cover(want)
+        if want == "fault" and builders:
+            cx.cover("fault_inside_write_group")
+        cx.observe("outcome", outcome)
+        return
+    b = builders[0]
+    sel_seen = [e[1] for e in log if e[0] == "selection"]
+    want_sel = None if sel is None else sorted(s for s in sel if not any(s != o and inside(s, o) for o in sel))
+    cx.require(sel_seen == [want_sel], "the tree was asked for changes of %r, the caller selected %r" % (sel_seen, sel))
+    cx.require(b.recorded == expected, "the builder recorded %r, selected and not excluded are %r" % (b.recorded, expected))
+    cx.require(b.aborted == 0, "a successful commit aborted its write group")
+    order = [n for n in names if n in ("builder.record_iter_changes", "builder.finish_inventory", "builder.commit",
+                                       "branch.set_last_revision_info", "tree.unversion", "tree.update_basis_by_delta",
+                                       "reporter.completed")]
+    cx.require(order == ["builder.record_iter_changes", "builder.finish_inventory", "builder.commit",
+                         "branch.set_last_revision_info", "tree.unversion", "tree.update_basis_by_delta", "reporter.completed"],
+               "steps of a successful commit out of order: %r" % (order,))
+    cx.require(got_rev == b"new-rev" and state["tip"] == (4, b"new-rev") and state["basis"] == b"new-rev",
+               "after the commit: returned %r, tip %r, tree basis %r" % (got_rev, state["tip"], state["basis"]))
+    if sel == []:
+        cx.cover("empty_selection")
+    if sel and exc:
+        cx.cover("selection_and_exclusion")
+    cx.cover("ok")
+    cx.observe("outcome", outcome)
+
+
 def obligations(tier):
     q = tier == "quick"
     p = dict(nchanges=1, nexclude=2, lpath=3)
@@ -166,6 +428,11 @@ def obligations(tier):
         Ob("exclude_filter", ob_exclude, [CM], p, to, 2 if q else 1, ["excluded", "kept"], setup=setup,
            bounds="<= %(nchanges)d changes (modified / added / removed / renamed) with symbolic paths of <= %(lpath)d chars over "
                   "'ab/', <= %(nexclude)d excluded path(s)" % p),
+        Ob("commit_pipeline", ob_pipeline, [CM], {}, to, 1,
+           ["ok", "pointless", "selected_merge", "fault", "fault_inside_write_group", "empty_selection", "selection_and_exclusion"],
+           bounds="three files with pending changes (a, a/b, c); selection None / [] / four lists, exclusion None / [] / two lists, "
+                  "with / without a pending merge, pointless commits allowed or not; an exception raised at any one of the "
+                  "calls commit() makes up to and including builder.commit (symbolic step index), or none"),
         Ob("filter_iter_changes", ob_filter_changes, [CM], dict(nchanges=2 if q else 3), to, 1, ["missing_file", "dropped"],
            bounds="<= %d changes with every combination of versioned flags and kinds, verbose or not, with / without symlink "
                   "support" % (2 if q else 3)),
